@@ -16,6 +16,7 @@
      tab_of key l []            the table obtained by inserting l in order with tab_set
      last_or l None             the last element of l, None when l is empty
    In Info mode nothing is pruned: every chunk index of the summary is returned, sorted by offset. *)
+From Mcap Require ConstsTie LayoutTie DecisionTieW. (* regenerated ties to /repo's source that this property's model relies on *)
 From Coq Require Import List NArith ZArith Bool.
 From Coq.Strings Require Import Byte.
 From RecordUpdate Require Import RecordSet.
